@@ -2120,6 +2120,13 @@ def remove_dead_ifs(source: str) -> str:
             pre_else = source[:node_start]
             start_offset = len(pre_else) - len(pre_else.rstrip())
 
+            if source[node_start:].startswith("elif") and not source[start:].startswith("elif"):
+                # What remains of an elif is the else branch of the if statement before it
+                remaining_body = " " * remove[0].col_offset + source[start:end]
+                modified_body = " " * indent + "else:\n" + remaining_body
+                yield core.Range(node_start - start_offset, node_end), "\n" + modified_body + "\n"
+                continue
+
             yield core.Range(node_start - start_offset, node_end), "\n\n" + modified_body + "\n\n"
 
     for node in core.walk(root, (ast.ListComp, ast.SetComp, ast.GeneratorExp, ast.DictComp)):
